@@ -1034,7 +1034,44 @@ pub fn c10(ctx: &mut Ctx) -> R {
     }
     // Redirect -> Cleanup keeps the verdict
     let (mc2, r2) = match obs.terminal {
-        Terminal::Redirect(f) => {
+        Terminal::Redirect(mut f) => {
+            // ---- history: the verdict of the next hop is about the request that hop really sent
+            if ctx.chance(1, 3) {
+                use ureq_proto::client::flow::RedirectAuthHeaders;
+                if let Ok(Some(nf)) = lib("Flow<Redirect>::as_new_flow", || f.as_new_flow(RedirectAuthHeaders::Never)) {
+                    let srv_close = ctx.chance(1, 4);
+                    let stream2: &[u8] = if srv_close { b"HTTP/1.1 200 OK\r\nConnection: close\r\nContent-Length: 0\r\n\r\n" } else { b"HTTP/1.1 200 OK\r\nContent-Length: 0\r\n\r\n" };
+                    let exh = Exchange { prop: "C10", body: &[], policy: Policy::canonical(AwaitPolicy::GiveUpAtOnce), server: ServerPlan::default(), fixed_stream: Some(FixedStream { stream: stream2, consumed: 0, visible: 0, arrivals: vec![stream2.len()] }) };
+                    let oh = exh.run(ctx, nf)?;
+                    if let (Terminal::Cleanup(_), Ok(Some(ph))) = (&oh.terminal, parse_request_head(oh.head())) {
+                        let mut rch: Vec<&'static str> = Vec::new();
+                        if ph.version == "HTTP/1.0" {
+                            rch.push("http10");
+                        }
+                        if ph.fields.iter().any(|(n, v)| n == "connection" && v == b"close") {
+                            rch.push("client-close");
+                        }
+                        if srv_close {
+                            rch.push("server-close");
+                        }
+                        let mch = oh.must_close.unwrap_or(false);
+                        ctx.count("p:verdict_at_redirect_depth");
+                        if mch && rch.is_empty() {
+                            fail!("C10.close_without_condition", "redirected", "the redirected exchange ends must-close (reason {:?}) but none of the close conditions holds for the request it sent: {:?}", oh.reason, show_bytes(oh.head()));
+                        }
+                        if !mch && !rch.is_empty() {
+                            fail!("C10.reuse_despite_condition", "redirected", "the redirected exchange offers the connection for reuse although {:?} hold(s)", rch);
+                        }
+                        if let Some(c) = oh.reason.and_then(reason_class) {
+                            if !rch.contains(&c) {
+                                fail!("C10.reason_not_true", "redirected", "close_reason() = {:?} of the redirected exchange names a condition that does not hold for it (true: {:?}; request sent: {:?})", oh.reason, rch, show_bytes(oh.head()));
+                            }
+                        }
+                    } else {
+                        ctx.count("p:redirected_hop_not_completed");
+                    }
+                }
+            }
             let c = lib("Flow<Redirect>::proceed", || f.proceed());
             (lib("Flow<Cleanup>::must_close_connection", || c.must_close_connection()), lib("Flow<Cleanup>::close_reason", || c.close_reason()))
         }
@@ -1137,6 +1174,11 @@ pub fn c11(ctx: &mut Ctx) -> R {
         }
     }
     let mut msgs = Vec::new();
+    // bytes the silent peer sends in front of its final response, the statuses of those heads that
+    // must be handed to the caller, and how many 100s are among them
+    let mut late_prefix: Vec<u8> = Vec::new();
+    let mut late_statuses: Vec<u16> = Vec::new();
+    let mut late_100s = 0usize;
     let mut final_bytes = final_plan.bytes();
     let prot = final_plan.protected();
     let one_seg = |b: &Vec<u8>| vec![b.len()];
@@ -1159,8 +1201,40 @@ pub fn c11(ctx: &mut Ctx) -> R {
             msgs.push(ServerMsg { bytes: std::mem::take(&mut final_bytes), trigger: Trigger::AfterRequestHead, think_ns: think1, cuts: c });
         }
         _ => {
-            let c = if prot.is_some() { one_seg(&final_bytes) } else { gen_arrival(ctx, final_bytes.len(), &[final_plan.head_bytes.len()], 40).0 };
-            msgs.push(ServerMsg { bytes: std::mem::take(&mut final_bytes), trigger: Trigger::AfterRequest, think_ns: think2, cuts: c });
+            // the silent peer may still send a (very) late 100 once the request has arrived: after
+            // another interim head, twice, or just so
+            // (not when the request is complete with its head: the peer would answer while the
+            // caller is still awaiting, which is the refusal branch)
+            let variant = if cfg.sized() == Some(0) { 7 } else { ctx.draw(8) };
+            // (an interim-aware caller polls past every 102..199 head: the final one must not be one)
+            let variant = if variant == 0 && final_plan.head.status < 200 { 7 } else { variant };
+            match variant {
+                0 => {
+                    let i = interim_1xx(ctx, None);
+                    late_statuses.push(((i[9] - b'0') as u16) * 100 + ((i[10] - b'0') as u16) * 10 + (i[11] - b'0') as u16);
+                    late_prefix.extend_from_slice(&i);
+                    late_prefix.extend_from_slice(&c100);
+                    late_100s = 1;
+                    ctx.count("f:interim_1xx_before_late_100");
+                }
+                1 => {
+                    late_prefix.extend_from_slice(&c100);
+                    late_prefix.extend_from_slice(&continue_100(ctx));
+                    late_statuses.push(100);
+                    late_100s = 2;
+                    ctx.count("f:peer_late_100_twice");
+                }
+                2 => {
+                    late_prefix.extend_from_slice(&c100);
+                    late_100s = 1;
+                }
+                _ => {}
+            }
+            let mut all = late_prefix.clone();
+            all.extend_from_slice(&final_bytes);
+            final_bytes.clear();
+            let c = if prot.is_some() { one_seg(&all) } else { gen_arrival(ctx, all.len(), &[late_prefix.len(), late_prefix.len() + final_plan.head_bytes.len()], 40).0 };
+            msgs.push(ServerMsg { bytes: all, trigger: Trigger::AfterRequest, think_ns: think2, cuts: c });
         }
     }
     ctx.sample(|| format!("{} body={} | peer: {} think1={}ns think2={}ns | client: {:?} | first head {} bytes (status line {}), cuts {:?} | final {} {:?}", cfg.summary(), body.len(), match script { 0 | 1 => "100 then final after the body", 2 => "refuses with the final response", _ => "silent until the body arrived" }, think1, think2, policy_await, hl, sl, cuts, final_plan.head.status, final_plan.truth));
@@ -1170,6 +1244,7 @@ pub fn c11(ctx: &mut Ctx) -> R {
     };
     set_observed(true);
     let mut policy = Policy::draw(ctx, policy_await);
+    policy.skip_interim = late_statuses.iter().any(|s| *s != 100);
     policy.lat_ns = *ctx.pick(&[0u64, 200, 20_000, 3_000_000]);
     if ctx.chance(1, 5) {
         // aim the timer into the arrival window of the peer's first head: think time, then one
@@ -1181,6 +1256,7 @@ pub fn c11(ctx: &mut Ctx) -> R {
         }
         ctx.count("f:timer_aimed_into_head");
     }
+    let policy_skip_interim = policy.skip_interim;
     let ex = Exchange { prop: "C11", body: &body, policy, server: ServerPlan { msgs, close_after: final_plan.truth == RF::Close }, fixed_stream: None };
     let obs = ex.run(ctx, start)?;
 
@@ -1252,6 +1328,12 @@ pub fn c11(ctx: &mut Ctx) -> R {
             }
         }
     }
+    if policy_skip_interim && obs.responses.len() == 1 && matches!(obs.terminal, Terminal::Stuck("RecvResponse") | Terminal::Error("RecvResponse", _)) {
+        // polling past the delivered interim head was refused: nothing more to judge
+        ctx.count("p:interim_poll_refused");
+        ctx.nontrivial = true;
+        return Ok(());
+    }
     // ---- and the run continues to the end
     match &obs.terminal {
         Terminal::Error(s, e) => fail!("C11.flow_unusable", s, "after the handshake the flow failed in {}: {} (path {})", s, e, obs.state_path()),
@@ -1276,7 +1358,7 @@ pub fn c11(ctx: &mut Ctx) -> R {
     if obs.gave_up_waiting && !is_100 && script == 2 {
         ctx.count("p:refusal_after_giveup");
     }
-    let late_100 = is_100 && !decided_100;
+    let late_100 = (is_100 && !decided_100) || late_100s > 0;
     if late_100 {
         ctx.count("p:late_100_skipped");
         ctx.count("f:peer_late_100");
@@ -1286,8 +1368,12 @@ pub fn c11(ctx: &mut Ctx) -> R {
     // and return the real response): that it was skipped shows in the single surfaced response
     // and in the consumed count below
     ensure!(obs.skipped_100 <= late_100 as usize, "C11.late_100_skip_count", "{} interim responses skipped, expected at most {}", obs.skipped_100, late_100 as usize);
-    ensure!(obs.responses.len() == 1, "C11.response_count", "{} responses surfaced (statuses {:?})", obs.responses.len(), obs.responses.iter().map(|r| r.status).collect::<Vec<_>>());
-    if let Err(e) = check_resp_obs(&obs.responses[0], &final_plan.head) {
+    // exactly one late 100 is skipped: every other head is handed to the caller, in order
+    let mut want_statuses = late_statuses.clone();
+    want_statuses.push(final_plan.head.status);
+    let got_statuses: Vec<u16> = obs.responses.iter().map(|r| r.status).collect();
+    ensure!(got_statuses == want_statuses, "C11.response_count", "responses surfaced with statuses {:?}, the peer sent {:?} plus {} late 100 of which exactly one is to be skipped", got_statuses, want_statuses, late_100s);
+    if let Err(e) = check_resp_obs(obs.responses.last().unwrap(), &final_plan.head) {
         fail!("C11.response_not_intact", "", "{}", e);
     }
     ensure!(obs.resp_body == final_plan.payload, "C11.response_body_not_intact", "response body {} bytes, server sent {}", obs.resp_body.len(), final_plan.payload.len());
@@ -1301,7 +1387,7 @@ pub fn c11(ctx: &mut Ctx) -> R {
     if decided_refuse {
         ensure!(obs.must_close == Some(true), "C11.refusal_not_must_close", "the connection is offered for reuse after a refused Expect");
     }
-    let consumed_want = if is_100 { c100.len() } else { 0 } + final_plan.len();
+    let consumed_want = if is_100 { c100.len() } else { 0 } + late_prefix.len() + final_plan.len();
     ensure!(obs.consumed == consumed_want, "C11.wrong_consumed", "consumed {} server bytes, messages are {} bytes", obs.consumed, consumed_want);
     ctx.nontrivial = true;
     Ok(())
